@@ -343,6 +343,26 @@ Example C07_abs_test_regression :
 Proof. regress [base_line "http://b/"; L_ex; one_line exs exp (OIri (IAbs (Str "urn:a:b")))]
                [IDir (DBase (IAbs (Str "http://b/"))); P_ex; one exs exp (OIri (IAbs (Str "urn:a:b")))]. Qed.
 
+(** ... and "absolute" means the scheme syntax of RFC 3986 ([Spec.TtlSyntax.has_scheme]: a letter, then letters,
+    digits, '+', '-', '.', then ':'): under a declared base an IRI such as <svn+ssh://h/r> in node position and
+    <x-types:semver> as a datatype are lexically well formed, inside [C07_dom], and read as written *)
+Definition plus_scheme_lines : list line :=
+  [base_line "http://b/d/"; L_ex;
+   one_line (SIri (IAbs (Str "android-app://a.b/s"))) exp (OIri (IAbs (Str "svn+ssh://h/r")));
+   one_line exs exp (OLit (Str "1.2") (LTyped (IAbs (Str "x-types:semver"))))].
+Definition plus_scheme_doc : doc :=
+  [IDir (DBase (IAbs (Str "http://b/d/"))); P_ex;
+   one (SIri (IAbs (Str "android-app://a.b/s"))) exp (OIri (IAbs (Str "svn+ssh://h/r")));
+   one exs exp (OLit (Str "1.2") (LTyped (IAbs (Str "x-types:semver"))))].
+Example C07_rfc3986_scheme_in_domain :
+  regression plus_scheme_lines plus_scheme_doc /\ C07_dom plus_scheme_lines plus_scheme_doc = true /\
+  sem plus_scheme_doc =
+    Some [T (Node KIri (Str "android-app://a.b/s")) (Str "http://e/p") (ON (Node KIri (Str "svn+ssh://h/r")));
+          T (Node KIri (Str "http://e/s")) (Str "http://e/p") (OL (Str "1.2") (Str "x-types:semver"))].
+Proof.
+  split; [regress plus_scheme_lines plus_scheme_doc|]. split; vm_compute; reflexivity.
+Qed.
+
 (** 466698d: a base not starting with "http" is applied once *)
 Example C07_double_base_regression :
   regression [base_line "ftp://b/"; L_ex; one_line (SIri (IRel (Str "s"))) exp (OIri (ex "o"))]
